@@ -200,6 +200,82 @@ class CellRemoveNative(_NativeRemoval):
 CONTRACTS = [PointsRemoveVerticesNative, CellRemoveNative]
 
 
+class ReleasedCacheNative(Contract):
+    """The aligned state reached by a removal is also the state an object shows once its cached
+    arrays are released (clear_array_attributes, what copy(clear_cache=True) does) and the state a
+    later session reads: no derived cache (a curve's parts) may bring the old geometry back."""
+    target = "geoh5py/objects/cell_object.py::CellObject.remove_cells"
+    variant = "released-cache"
+    symbolic = False
+    has_native = True
+    props = ("C07",)
+    bounded_scope = "file-backed 5-vertex curves (4 cell lists) and surfaces (2) and a point cloud with vertex/cell data; parts read or not before the operation; remove_vertices / remove_cells with 4 index sets; state compared right after the operation, after clear_array_attributes(recursive) and after re-opening the file"
+
+    def native_cases(self, tier, rng):
+        geoms = {"points": [None], "curve": [[[0, 1], [1, 2], [2, 3], [3, 4]], [[0, 1], [2, 3]], [[3, 4], [0, 1]], [[0, 1], [1, 2], [3, 4]]], "surface": [[[0, 1, 2], [2, 3, 4]], [[4, 3, 2], [0, 1, 2], [1, 2, 3]]]}
+        for kind, cl in geoms.items():
+            for cells in cl:
+                for op in ("remove_vertices", "remove_cells"):
+                    if kind == "points" and op == "remove_cells":
+                        continue
+                    for idx in ([0], [4], [2], [1, 3]):
+                        if op == "remove_cells":
+                            idx = sorted({i for i in idx if i < len(cells)})
+                            if not idx or len(idx) >= len(cells):
+                                continue
+                        for parts_read in ((False, True) if kind == "curve" else (False,)):
+                            yield {"kind": kind, "n": 5, "cells": cells, "op": op, "indices": idx, "parts_read": parts_read}
+
+    def native_check(self, case):
+        import os
+        import shutil
+        import tempfile
+
+        from geoh5py.shared.utils import clear_array_attributes
+        from geoh5py.workspace import Workspace
+
+        def same(a, b):
+            for k in set(a) | set(b):
+                x, y = a.get(k), b.get(k)
+                if (x is None) != (y is None) or (x is not None and (np.shape(x) != np.shape(y) or not np.array_equal(x, y))):
+                    return f"{k}: {None if x is None else np.asarray(x).tolist()} became {None if y is None else np.asarray(y).tolist()}"
+            return None
+
+        d = tempfile.mkdtemp()
+        try:
+            path = os.path.join(d, "r.geoh5")
+            with Workspace.create(path) as ws:
+                obj, _ = _build(ws, case)
+                uid = obj.uid
+                if case["parts_read"]:
+                    obj.parts  # materialise the derived cache
+                try:
+                    getattr(obj, case["op"])(list(case["indices"]))
+                except Exception:
+                    return None  # refusals are CellRemoveNative's subject
+                # text data of a one-element geometry is stored as a single string and read as a bare str:
+                # the same one entry (C08 treats the two spellings as equal), normalised here
+                state = lambda o: {k: (None if v is None else np.atleast_1d(v)) for k, v in _state(o).items()}
+                after = state(obj)
+                bad = _consistent(obj)
+                if bad:
+                    return f"{bad} ({case})"
+                clear_array_attributes(obj, recursive=True)
+                bad = same(after, state(obj))
+                if bad:
+                    return f"after {case['op']}({case['indices']}) and a release of the cached arrays: {bad} ({case})"
+            with Workspace(path, mode="r") as ws:
+                bad = same(after, state(ws.get_entity(uid)[0]))
+                if bad:
+                    return f"after {case['op']}({case['indices']}) a later session reads another state: {bad} ({case})"
+            return None
+        finally:
+            shutil.rmtree(d, ignore_errors=True)
+
+
+CONTRACTS = CONTRACTS + [ReleasedCacheNative]
+
+
 # ------------------------------------------------------------------------------------------
 # deductive part
 # ------------------------------------------------------------------------------------------
@@ -413,7 +489,7 @@ class PointsRemoveVertices(Contract):
         ctx.oblige("raises-only-index-errors", sig.exc_class in (ValueError, IndexError), kind="post-exc")
 
 
-CONTRACTS = [PointsRemoveVerticesNative, CellRemoveNative, FormatLength, VerticesSetStub, CellsSetStub, SurfaceCellsSetStub, PointsRemoveVertices]
+CONTRACTS = [PointsRemoveVerticesNative, CellRemoveNative, ReleasedCacheNative, FormatLength, VerticesSetStub, CellsSetStub, SurfaceCellsSetStub, PointsRemoveVertices]
 
 
 def _cell_obj(ctx, w):
